@@ -220,7 +220,7 @@ fn enumerate_mapping(run: u64, mapping: &[u8], st: &mut Stats, vs: &mut Vec<Viol
                 if matches!(kind, FaultKind::Short(_)) && cap == Some(1) {
                     continue; // a 1-byte offer cannot be short
                 }
-                let plan = SinkPlan { cap, faults: vec![Fault { at: i, kind }], disk_capacity: None, cap_switch: None };
+                let plan = SinkPlan { cap, faults: vec![Fault { at: i, kind }], disk_capacity: None, cap_switch: None, full_is_zero: false };
                 check_one(&cx, &plan, st, vs, &mut nontrivial);
             }
             if matches!(cap, Some(3) | None) {
@@ -238,7 +238,7 @@ fn enumerate_mapping(run: u64, mapping: &[u8], st: &mut Stats, vs: &mut Vec<Viol
                     (FaultKind::Short(0), FaultKind::Interrupted(64)),
                 ];
                 for (a, b) in pairs {
-                    let plan = SinkPlan { cap, faults: vec![Fault { at: i, kind: a }, Fault { at: i + 1, kind: b }], disk_capacity: None, cap_switch: None };
+                    let plan = SinkPlan { cap, faults: vec![Fault { at: i, kind: a }, Fault { at: i + 1, kind: b }], disk_capacity: None, cap_switch: None, full_is_zero: false };
                     check_one(&cx, &plan, st, vs, &mut nontrivial);
                 }
             }
@@ -246,15 +246,15 @@ fn enumerate_mapping(run: u64, mapping: &[u8], st: &mut Stats, vs: &mut Vec<Viol
                 // the chunk cap changes at this call: everything -> one byte per call, and back
                 for to in [Some(1usize), Some(3), None] {
                     if to != cap {
-                        let plan = SinkPlan { cap, faults: vec![], disk_capacity: None, cap_switch: Some((i, to)) };
+                        let plan = SinkPlan { cap, faults: vec![], disk_capacity: None, cap_switch: Some((i, to)), full_is_zero: false };
                         check_one(&cx, &plan, st, vs, &mut nontrivial);
-                        let plan = SinkPlan { cap, faults: vec![Fault { at: i + 1, kind: FaultKind::Hard(ErrK::BrokenPipe, true) }], disk_capacity: None, cap_switch: Some((i, to)) };
+                        let plan = SinkPlan { cap, faults: vec![Fault { at: i + 1, kind: FaultKind::Hard(ErrK::BrokenPipe, true) }], disk_capacity: None, cap_switch: Some((i, to)), full_is_zero: false };
                         check_one(&cx, &plan, st, vs, &mut nontrivial);
                     }
                 }
                 // long runs of EINTR (a signal storm): retry budgets exist
                 for burst in [63u16, 64, 65, 128, 256, 1000] {
-                    let plan = SinkPlan { cap, faults: vec![Fault { at: i, kind: FaultKind::Interrupted(burst) }], disk_capacity: None, cap_switch: None };
+                    let plan = SinkPlan { cap, faults: vec![Fault { at: i, kind: FaultKind::Interrupted(burst) }], disk_capacity: None, cap_switch: None, full_is_zero: false };
                     check_one(&cx, &plan, st, vs, &mut nontrivial);
                 }
             }
@@ -262,7 +262,7 @@ fn enumerate_mapping(run: u64, mapping: &[u8], st: &mut Stats, vs: &mut Vec<Viol
                 // the unchunked sink has one call per section: every error kind at every call
                 for k in ErrK::ALL {
                     for sticky in [true, false] {
-                        let plan = SinkPlan { cap, faults: vec![Fault { at: i, kind: FaultKind::Hard(k, sticky) }], disk_capacity: None, cap_switch: None };
+                        let plan = SinkPlan { cap, faults: vec![Fault { at: i, kind: FaultKind::Hard(k, sticky) }], disk_capacity: None, cap_switch: None, full_is_zero: false };
                         check_one(&cx, &plan, st, vs, &mut nontrivial);
                     }
                 }
@@ -274,7 +274,10 @@ fn enumerate_mapping(run: u64, mapping: &[u8], st: &mut Stats, vs: &mut Vec<Viol
         let step = if canon.len() > 4096 { canon.len() / 2048 } else { 1 };
         let mut c = 0;
         while c < canon.len() {
-            let plan = SinkPlan { cap, faults: vec![], disk_capacity: Some(c), cap_switch: None };
+            let plan = SinkPlan { cap, faults: vec![], disk_capacity: Some(c), cap_switch: None, full_is_zero: false };
+            check_one(&cx, &plan, st, vs, &mut nontrivial);
+            // the same capacity as a fixed-size buffer: Ok(0) when full
+            let plan = SinkPlan { cap, faults: vec![], disk_capacity: Some(c), cap_switch: None, full_is_zero: true };
             check_one(&cx, &plan, st, vs, &mut nontrivial);
             c += step;
         }
@@ -284,7 +287,7 @@ fn enumerate_mapping(run: u64, mapping: &[u8], st: &mut Stats, vs: &mut Vec<Viol
         st.samples.push(json!({
             "mapping_bytes": mapping.len(), "canonical_cache_bytes": canon.len(),
             "mapping_head": String::from_utf8_lossy(&mapping[..mapping.len().min(160)]),
-            "example_plan": SinkPlan { cap: Some(3), faults: vec![Fault{at: 2, kind: FaultKind::Zero(false)}], disk_capacity: None, cap_switch: None }.to_json(),
+            "example_plan": SinkPlan { cap: Some(3), faults: vec![Fault{at: 2, kind: FaultKind::Zero(false)}], disk_capacity: None, cap_switch: None, full_is_zero: false }.to_json(),
             "executions_for_this_mapping": nontrivial,
         }));
     }
@@ -368,7 +371,7 @@ fn refit_plan(mapping: &[u8], plan: &SinkPlan, class: &str) -> Option<SinkPlan> 
     if plan.faults.len() == 1 && plan.disk_capacity.is_none() {
         let n = run_write(mapping, &SinkPlan { cap: plan.cap, ..Default::default() }).calls;
         for i in 0..n.min(5000) {
-            let p = SinkPlan { cap: plan.cap, faults: vec![Fault { at: i, kind: plan.faults[0].kind }], disk_capacity: None, cap_switch: None };
+            let p = SinkPlan { cap: plan.cap, faults: vec![Fault { at: i, kind: plan.faults[0].kind }], disk_capacity: None, cap_switch: None, full_is_zero: false };
             if violates_same(mapping, &p, class) {
                 return Some(p);
             }
@@ -378,7 +381,7 @@ fn refit_plan(mapping: &[u8], plan: &SinkPlan, class: &str) -> Option<SinkPlan> 
         if let Some(_c) = plan.disk_capacity {
             let Ok(canon) = canon_of(mapping) else { return None };
             for c in 0..canon.len().min(5000) {
-                let p = SinkPlan { cap: plan.cap, faults: vec![], disk_capacity: Some(c), cap_switch: None };
+                let p = SinkPlan { cap: plan.cap, faults: vec![], disk_capacity: Some(c), cap_switch: None, full_is_zero: false };
                 if violates_same(mapping, &p, class) {
                     return Some(p);
                 }
@@ -396,7 +399,7 @@ pub fn minimise(v: &Violation) -> Violation {
     let mut budget = 2000usize;
     // 1. faults
     let faults = ddmin(&plan.faults.clone(), &mut budget, &mut |fs| {
-        let p = SinkPlan { cap: plan.cap, faults: fs.to_vec(), disk_capacity: plan.disk_capacity, cap_switch: plan.cap_switch };
+        let p = SinkPlan { cap: plan.cap, faults: fs.to_vec(), disk_capacity: plan.disk_capacity, cap_switch: plan.cap_switch, full_is_zero: plan.full_is_zero };
         violates_same(&mapping, &p, &class)
     });
     plan.faults = faults;
@@ -504,7 +507,7 @@ pub fn main(env: &Env) -> i32 {
         rep.rule = format!(
             "per mapping ({} seeded-generated with 0..6 classes x 0..8 members, {} small corpus files, 1 hand-written padding case): fault-free control; every chunk cap 1..16; \
              for caps {{1,3,4,7,inf}} EVERY sink call index x {{short-once, Interrupted x1, Interrupted x3, hard sticky, hard transient, soft transient, Ok(0) once, Ok(0) forever}}; for caps {{4,inf}} a chunk cap that changes at that call (with and without a hard error right after) and Interrupted bursts of 63/64/65/128/256/1000 at every call; for caps {{3,inf}} also 10 two-fault pairs at adjacent calls (i, i+1) and for cap inf every error kind sticky/transient at every call; \
-             disk-full at EVERY capacity 0..len for caps {{inf,1,5}}. Exhaustive for each mapping over that single-fault space. \
+             disk-full at EVERY capacity 0..len for caps {{inf,1,5}}, once answering StorageFull and once Ok(0) (a fixed-size buffer). Exhaustive for each mapping over that single-fault space. \
              Plus 32 large-section mappings (wide classes of 70..150 methods, 150..260 classes, or 2400..6500 classes): every chunk cap 1..16 fault-free and 160 seeded multi-fault plans each. \
              distinct_nontrivial = executions (distinct by construction per distinct mapping) in which a fault fired or the cap truncated a call.",
             n_gen,
@@ -561,12 +564,12 @@ pub fn main(env: &Env) -> i32 {
                         check_one(&cx, &SinkPlan { cap, ..Default::default() }, st, vs, &mut nontrivial);
                         for at in 0..calls.min(12) {
                             for kind in [FaultKind::Short(0x9E37_79B9), FaultKind::Interrupted(2), FaultKind::Hard(ErrK::StorageFull, true), FaultKind::Zero(false)] {
-                                check_one(&cx, &SinkPlan { cap, faults: vec![Fault { at, kind }], disk_capacity: None, cap_switch: None }, st, vs, &mut nontrivial);
+                                check_one(&cx, &SinkPlan { cap, faults: vec![Fault { at, kind }], disk_capacity: None, cap_switch: None, full_is_zero: false }, st, vs, &mut nontrivial);
                             }
                         }
                     }
                     for c in [canon.len() / 3, canon.len() - 1, 65_536, 1 << 20] {
-                        check_one(&cx, &SinkPlan { cap: Some(1 << 16), faults: vec![], disk_capacity: Some(c.min(canon.len() - 1)), cap_switch: None }, st, vs, &mut nontrivial);
+                        check_one(&cx, &SinkPlan { cap: Some(1 << 16), faults: vec![], disk_capacity: Some(c.min(canon.len() - 1)), cap_switch: None, full_is_zero: false }, st, vs, &mut nontrivial);
                     }
                     st.keyed_max(cx.mdig, nontrivial);
                     st.run_done(cx.mdig);
